@@ -16,64 +16,74 @@ Theorem C13_codec_numbers : forall le v, pyv_tag v = TInt \/ pyv_tag v = TFloat 
 Proof. exact codec_numbers. Qed.
 Print Assumptions C13_codec_numbers.
 
-(* a STRING attribute: the round trip returns it iff it is non-empty and the translated `_should_desanitize`
-   is false on it; it raises IndexError exactly on ""; on every string the test accepts the result is whatever
-   literal_eval makes of it, which is never the string itself (another type, or an exception) *)
-Theorem C13_codec_characterisation : forall le, oracle_not_self le -> forall s,
-  (codec_attr le (PStr s) = Ok (PStr s) <-> s <> "" /\ should_desanitize_str s = Ok false) /\
-  (codec_attr le (PStr s) = Err EKeyError /\ should_desanitize_str s = Err EKeyError <-> s = "") /\
-  (should_desanitize_str s = Ok true -> codec_attr le (PStr s) = le s /\ le s <> Ok (PStr s)).
+(* a STRING attribute never makes the decoder raise; it comes back as the same string iff the translated
+   `_should_desanitize` is false on it (in particular "") or literal_eval rejects it (e.g. "[m/s]"); when the test
+   accepts it and literal_eval accepts it too, what comes back is literal_eval's value, never the string *)
+Theorem C13_codec_characterisation : forall le, oracle_not_self le -> oracle_errors le -> forall s,
+  (codec_attr le (PStr s) = Ok (PStr s) <-> should_desanitize_str s = Ok false \/ exists k, le s = Err k) /\
+  (forall e, codec_attr le (PStr s) <> Err e) /\
+  (should_desanitize_str s = Ok true -> forall v, le s = Ok v -> codec_attr le (PStr s) = Ok v /\ v <> PStr s).
 Proof. exact codec_characterisation. Qed.
 Print Assumptions C13_codec_characterisation.
 
 (* the same in terms of the string: bracketed by {} or [], or one of True / False / None *)
-Theorem C13_codec_characterisation_literal : forall le, oracle_not_self le -> forall s,
-  codec_attr le (PStr s) = Ok (PStr s) <-> s <> "" /\ ~ looks_like_literal s.
+Theorem C13_codec_characterisation_literal : forall le, oracle_not_self le -> oracle_errors le -> forall s,
+  codec_attr le (PStr s) = Ok (PStr s) <-> ~ looks_like_literal s \/ exists k, le s = Err k.
 Proof. exact codec_characterisation_literal. Qed.
 Print Assumptions C13_codec_characterisation_literal.
 
 Theorem C13_should_desanitize_spec : forall s,
-  (should_desanitize_str s = Ok true <-> s <> "" /\ looks_like_literal s) /\
-  (should_desanitize_str s = Ok false <-> s <> "" /\ ~ looks_like_literal s) /\
-  (forall e, should_desanitize_str s = Err e <-> s = "" /\ e = EKeyError).
-Proof. exact (fun s => conj (should_true_iff s) (conj (should_false_iff s) (should_total_iff s))). Qed.
+  (should_desanitize_str s = Ok true <-> looks_like_literal s) /\
+  (should_desanitize_str s = Ok false <-> ~ looks_like_literal s) /\
+  (exists b, should_desanitize_str s = Ok b) /\ (looks_like_literal s -> s <> "").
+Proof. exact (fun s => conj (should_true_iff s) (conj (should_false_iff s) (conj (should_total s) (looks_like_literal_nonempty s)))). Qed.
 Print Assumptions C13_should_desanitize_spec.
 
-(* a whole attribute dictionary round-trips iff no string attribute in it is empty or accepted by the test *)
-Theorem C13_codec_characterisation_dict : forall le, oracle_spec le -> oracle_not_self le -> forall d,
+(* a whole attribute dictionary round-trips iff every string attribute in it is plain or rejected by literal_eval *)
+Theorem C13_codec_characterisation_dict : forall le, oracle_spec le -> oracle_not_self le -> oracle_errors le -> forall d,
   (forall k v, In (k, v) d -> is_sanitized_type v = true -> simple v = true) ->
-  (codec_attrs le d = Ok d <-> forall k v, In (k, v) d -> string_attr_ok v).
+  (codec_attrs le d = Ok d <-> forall k v, In (k, v) d -> string_attr_ok le v).
 Proof. exact codec_attrs_characterisation. Qed.
 Print Assumptions C13_codec_characterisation_dict.
 
 (* a whole tree (node-level and variable-level attributes of every node) *)
-Theorem C13_codec_tree : forall le, oracle_spec le -> oracle_not_self le -> forall t,
+Theorem C13_codec_tree : forall le, oracle_spec le -> oracle_not_self le -> oracle_errors le -> forall t,
   (forall d k v, In d (tree_dicts t) -> In (k, v) d -> is_sanitized_type v = true -> simple v = true) ->
-  (codec_tree le t = Ok t <-> forall d k v, In d (tree_dicts t) -> In (k, v) d -> string_attr_ok v).
+  (codec_tree le t = Ok t <-> forall d k v, In d (tree_dicts t) -> In (k, v) d -> string_attr_ok le v).
 Proof. exact codec_tree_strings. Qed.
 Print Assumptions C13_codec_tree.
 
-(* the round trip is NOT the identity on all attribute dictionaries, for any literal_eval:
-   "" raises, "True" comes back as a bool, "[m/s]" does not come back *)
-Theorem C13_codec_refuted : forall le,
-  codec_attrs le [("units", PStr "")] = Err EKeyError /\
-  (oracle_spec le -> codec_attrs le [("flag", PStr "True")] = Ok [("flag", PBool true)]) /\
-  (oracle_not_self le -> codec_attrs le [("units", PStr "[m/s]")] <> Ok [("units", PStr "[m/s]")]) /\
+(* repaired: "" and every string literal_eval rejects ("[m/s]", "{a}", "[m s-1]") round-trip, for every oracle *)
+Theorem C13_codec_repaired_strings : forall le,
+  codec_attrs le [("units", PStr "")] = Ok [("units", PStr "")] /\
+  (forall s k, le s = Err k -> In k [EValueError; ESyntaxError] ->
+     codec_attrs le [("units", PStr s)] = Ok [("units", PStr s)]).
+Proof. exact codec_repaired_strings. Qed.
+Print Assumptions C13_codec_repaired_strings.
+
+(* still NOT the identity on all attribute dictionaries (recorded finding, a file-format question):
+   with Python's literal_eval the strings "True", "None", "[1, 2]" come back as a bool, None, a list *)
+Theorem C13_codec_refuted : forall le, oracle_spec le ->
+  codec_attrs le [("flag", PStr "True")] = Ok [("flag", PBool true)] /\
+  codec_attrs le [("missing", PStr "None")] = Ok [("missing", PNone)] /\
+  codec_attrs le [("levels", PStr "[1, 2]")] = Ok [("levels", PList [PInt 1; PInt 2])] /\
   ~ (forall d, codec_attrs le d = Ok d).
 Proof. exact codec_refuted. Qed.
 Print Assumptions C13_codec_refuted.
 
-(* the same witnesses by computation with a concrete evaluator answering as Python does on them *)
-Theorem C13_codec_refuted_witnesses :
-  codec_attrs toy_literal_eval [("units", PStr "")] = Err EKeyError /\
-  codec_attrs toy_literal_eval [("units", PStr "[m/s]")] = Err EValueError /\
+(* both kinds of witness by computation with a concrete evaluator answering as Python does on them *)
+Theorem C13_codec_witnesses :
+  codec_attrs toy_literal_eval [("units", PStr "")] = Ok [("units", PStr "")] /\
+  codec_attrs toy_literal_eval [("units", PStr "[m/s]")] = Ok [("units", PStr "[m/s]")] /\
+  codec_attrs toy_literal_eval [("units", PStr "{a}")] = Ok [("units", PStr "{a}")] /\
+  codec_attrs toy_literal_eval [("units", PStr "[m s-1]")] = Ok [("units", PStr "[m s-1]")] /\
   codec_attrs toy_literal_eval [("flag", PStr "True")] = Ok [("flag", PBool true)] /\
   codec_attrs toy_literal_eval [("missing", PStr "None")] = Ok [("missing", PNone)] /\
   codec_attrs toy_literal_eval [("levels", PStr "[1, 2]")] = Ok [("levels", PList [PInt 1; PInt 2])] /\
   codec_attrs toy_literal_eval [("levels", PList [PInt 1; PInt 2]); ("p", PDict [("a", PNone)]); ("name", PStr "abc")]
     = Ok [("levels", PList [PInt 1; PInt 2]); ("p", PDict [("a", PNone)]); ("name", PStr "abc")].
-Proof. exact codec_refuted_witnesses. Qed.
-Print Assumptions C13_codec_refuted_witnesses.
+Proof. exact codec_witnesses. Qed.
+Print Assumptions C13_codec_witnesses.
 
 (* zarr path: attributes stored as JSON come back equal (None, bool, int, float, str, list, dict) *)
 Theorem C13_json : forall v, json_rt v = v.
